@@ -77,26 +77,22 @@ theorem isSome_comp (v : Nat) : (if v > 0 then some v else none : Option Nat).is
 
 /-- The years-and-months recogniser after the sign and `P`. -/
 def ymFinish (neg : Bool) (ys ms : Option (List Char)) : Lit Int :=
-  let yv := ys.bind parseU64
-  let mv := ms.bind parseU64
   let afterYears : Option Int :=
-    match yv with
-    | some y => if inI64 (asI64 y * 12) then some (asI64 y * 12) else none
+    match ys with
+    | some d => (parseI64 d).bind (fun y => if y * 12 ≤ i64Max then some (y * 12) else none)
     | none => some 0
   match afterYears with
-  | none => .panic
+  | none => .reject
   | some t =>
     let afterMonths : Option Int :=
-      match mv with
-      | some m => if inI64 (t + asI64 m) then some (t + asI64 m) else none
+      match ms with
+      | some d => (parseI64 d).bind (fun m => if t + m ≤ i64Max then some (t + m) else none)
       | none => some t
     match afterMonths with
-    | none => .panic
+    | none => .reject
     | some t =>
-      if neg ∧ t = i64Min then .panic
-      else
-        let t := if neg then -t else t
-        if yv.isSome ∨ mv.isSome then .ok t else .reject
+      let t := if neg then -t else t
+      if ys.isSome ∨ ms.isSome then .ok t else .reject
 
 theorem parseYmDur_pos (r : List Char) :
     parseYmDur ('P' :: r) =
@@ -108,42 +104,34 @@ theorem parseYmDur_neg (r : List Char) :
       if (optCompP 'M' (optCompP 'Y' r).2).2 ≠ [] then .reject
       else ymFinish true (optCompP 'Y' r).1 (optCompP 'M' (optCompP 'Y' r).2).1 := rfl
 
-theorem asI64_of_le {v : Nat} (h : (v : Int) ≤ i64Max) : asI64 v = v := by
-  unfold asI64; rw [if_pos h]
-
-theorem inI64_of_nat {t : Int} (h0 : 0 ≤ t) (h1 : t ≤ i64Max) : inI64 t = true := by
-  unfold inI64 i64Min
-  simp only [Bool.and_eq_true, decide_eq_true_eq]
-  exact ⟨by omega, h1⟩
+theorem parseI64_natToDigits {v : Nat} (h : (v : Int) ≤ i64Max) :
+    parseI64 (natToDigits v) = some (v : Int) := by
+  unfold parseI64
+  rw [natOfDigits_natToDigits]
+  simp [h]
 
 theorem ymFinish_comp (neg : Bool) (y m : Nat) (hfit : (y : Int) * 12 + m ≤ i64Max)
     (hpos : y > 0 ∨ m > 0) :
     ymFinish neg (if y > 0 then some (natToDigits y) else none)
         (if m > 0 then some (natToDigits m) else none) =
       .ok (if neg then -((y : Int) * 12 + m) else (y : Int) * 12 + m) := by
-  have hy : y ≤ u64Max := by unfold i64Max at hfit; unfold u64Max; omega
-  have hm : m ≤ u64Max := by unfold i64Max at hfit; unfold u64Max; omega
   have hyi : (y : Int) ≤ i64Max := by unfold i64Max at *; omega
   have hmi : (m : Int) ≤ i64Max := by unfold i64Max at *; omega
-  have hy12 : inI64 ((y : Int) * 12) = true := inI64_of_nat (by omega) (by unfold i64Max at *; omega)
-  have hym : inI64 ((y : Int) * 12 + m) = true := inI64_of_nat (by omega) hfit
-  have hm0 : inI64 (0 + (m : Int)) = true := inI64_of_nat (by omega) (by omega)
-  have hne : ∀ t : Int, 0 ≤ t → ¬ (neg = true ∧ t = i64Min) := by
-    intro t ht h; have := h.2; unfold i64Min at this; omega
+  have hy12 : (y : Int) * 12 ≤ i64Max := by unfold i64Max at *; omega
+  have hm0 : 0 + (m : Int) ≤ i64Max := by omega
   unfold ymFinish
-  rw [bind_parseU64_comp hy, bind_parseU64_comp hm]
   by_cases h1 : y > 0 <;> by_cases h2 : m > 0
-  · simp only [h1, h2, if_true, asI64_of_le hyi, asI64_of_le hmi, hy12, hym, Option.isSome_some,
-      true_or, hne _ (show (0:Int) ≤ (y : Int) * 12 + m by omega), if_false]
+  · simp only [h1, h2, if_true, parseI64_natToDigits hyi, parseI64_natToDigits hmi, Option.bind_some,
+      hy12, hfit, Option.isSome_some, true_or]
   · have : m = 0 := by omega
     subst this
-    simp only [h1, h2, if_true, if_false, asI64_of_le hyi, hy12, Option.isSome_some,
-      true_or, hne _ (show (0:Int) ≤ (y : Int) * 12 by omega)]
+    simp only [h1, h2, if_true, if_false, parseI64_natToDigits hyi, Option.bind_some, hy12,
+      Option.isSome_some, true_or]
     simp
   · have : y = 0 := by omega
     subst this
-    simp only [h1, h2, if_true, if_false, asI64_of_le hmi, hm0, Option.isSome_some,
-      or_true, hne _ (show (0:Int) ≤ 0 + (m : Int) by omega)]
+    simp only [h1, h2, if_true, if_false, parseI64_natToDigits hmi, Option.bind_some, hm0,
+      Option.isSome_some, or_true]
     simp
   · omega
 
@@ -190,6 +178,63 @@ theorem parseYmDur_printYmDur (n : Int) (h0 : i64Min < n) (h1 : n ≤ i64Max) :
       simp only [Bool.false_eq_true, if_false]
       congr 1
       omega
+
+/-! ## Every accepted years-and-months literal is in range, none panics -/
+
+theorem parseI64_nonneg {ds : List Char} {y : Int} (h : parseI64 ds = some y) : 0 ≤ y ∧ y ≤ i64Max := by
+  unfold parseI64 at h
+  simp only [] at h
+  split at h
+  · injection h with h; subst h; constructor <;> omega
+  · cases h
+
+theorem ymFinish_range (neg : Bool) (ys ms : Option (List Char)) :
+    ymFinish neg ys ms ≠ .panic ∧ ∀ n, ymFinish neg ys ms = .ok n → -i64Max ≤ n ∧ n ≤ i64Max := by
+  have hi : i64Max = 9223372036854775807 := rfl
+  unfold ymFinish
+  cases ys with
+  | none =>
+    cases ms with
+    | none => simp
+    | some dm =>
+      cases hm : parseI64 dm with
+      | none => simp [hm]
+      | some m =>
+        have := parseI64_nonneg hm
+        by_cases c : m ≤ i64Max
+        · simp [hm, c]; cases neg <;> simp <;> omega
+        · simp [hm, c]
+  | some dy =>
+    cases hy : parseI64 dy with
+    | none => simp [hy]
+    | some y =>
+      have h1 := parseI64_nonneg hy
+      by_cases c1 : y * 12 ≤ i64Max
+      · cases ms with
+        | none => simp [hy, c1]; cases neg <;> simp <;> omega
+        | some dm =>
+          cases hm : parseI64 dm with
+          | none => simp [hy, c1, hm]
+          | some m =>
+            have h2 := parseI64_nonneg hm
+            by_cases c2 : y * 12 + m ≤ i64Max
+            · simp [hy, c1, hm, c2]; cases neg <;> simp <;> omega
+            · simp [hy, c1, hm, c2]
+      · simp [hy, c1]
+
+theorem parseYmDur_range (cs : List Char) :
+    parseYmDur cs ≠ .panic ∧ ∀ n, parseYmDur cs = .ok n → -i64Max ≤ n ∧ n ≤ i64Max := by
+  unfold parseYmDur
+  split
+  rename_i neg cs' h
+  split
+  · split
+    rename_i ys r1 hY
+    simp only [ne_eq, ite_not]
+    split
+    · exact ymFinish_range neg ys (optCompP 'M' r1).1
+    · simp
+  · simp
 
 /-! ## Fractions -/
 
@@ -283,6 +328,8 @@ def dtTimePart (r : List Char) :
   match r with
   | [] => some (none, none, none, none)
   | 'T' :: r =>
+    if r = [] then none
+    else
     let (hs, r) := optCompP 'H' r
     let (ms, r) := optCompP 'M' r
     let (ss, r') := spanDigits r
@@ -317,7 +364,8 @@ def dtFinish (neg : Bool) (ds : Option (List Char))
     let n : Int := (dv.getD 0 : Nat) * nsPerDay + (hv.getD 0 : Nat) * nsPerHour +
       (mv.getD 0 : Nat) * nsPerMinute + (sv.getD 0 : Nat) * nsPerSecond + (fv.getD 0 : Nat)
     let n := if neg then -n else n
-    if dv.isSome ∨ hv.isSome ∨ mv.isSome ∨ sv.isSome ∨ fv.isSome then .ok n else .reject
+    if compBad ds || compBad hs || compBad ms || compBad ss then .reject
+    else if dv.isSome ∨ hv.isSome ∨ mv.isSome ∨ sv.isSome ∨ fv.isSome then .ok n else .reject
 
 theorem parseDtDur_pos (r : List Char) :
     parseDtDur ('P' :: r) = dtFinish false (optCompP 'D' r).1 (dtTimePart (optCompP 'D' r).2) := rfl
@@ -340,7 +388,9 @@ def dtSecPart (hs ms : Option (List Char)) (r : List Char) :
 
 theorem dtTimePart_T (r : List Char) :
     dtTimePart ('T' :: r) =
-      dtSecPart (optCompP 'H' r).1 (optCompP 'M' (optCompP 'H' r).2).1 (optCompP 'M' (optCompP 'H' r).2).2 :=
+      if r = [] then none
+      else dtSecPart (optCompP 'H' r).1 (optCompP 'M' (optCompP 'H' r).2).1
+        (optCompP 'M' (optCompP 'H' r).2).2 :=
   rfl
 
 /-- What the seconds of a printed duration are read back as: digits of the seconds and of the
@@ -381,7 +431,27 @@ theorem noComp_secStr {x : Char} (second nanos : Nat) (h1 : 'S' ≠ x) (h2 : '.'
   · simp only [hn, if_false]
     exact noComp_compStr' second (by decide) h1
 
-theorem dtTimePart_print (hour minute second nanos : Nat) :
+theorem compStr_ne_nil {v : Nat} (x : Char) (h : v > 0) : compStr v x ≠ [] := by
+  unfold compStr; rw [if_pos h]; simp
+
+theorem secStr_ne_nil {second nanos : Nat} (h : second > 0 ∨ nanos > 0) : secStr second nanos ≠ [] := by
+  unfold secStr
+  by_cases hn : nanos > 0
+  · rw [if_pos hn]
+    intro e
+    have := congrArg List.length e
+    simp at this
+  · rw [if_neg hn]
+    exact compStr_ne_nil 'S' (by omega)
+
+theorem compBad_comp {v : Nat} (h : v ≤ u64Max) :
+    compBad (if v > 0 then some (natToDigits v) else none) = false := by
+  by_cases hv : v > 0
+  · simp [hv, compBad, parseU64_natToDigits h]
+  · simp [hv, compBad]
+
+theorem dtTimePart_print (hour minute second nanos : Nat)
+    (hc : hour > 0 ∨ minute > 0 ∨ second > 0 ∨ nanos > 0) :
     dtTimePart ('T' :: (compStr hour 'H' ++ (compStr minute 'M' ++ secStr second nanos))) =
       some (if hour > 0 then some (natToDigits hour) else none,
         if minute > 0 then some (natToDigits minute) else none,
@@ -391,7 +461,14 @@ theorem dtTimePart_print (hour minute second nanos : Nat) :
       (noComp_secStr second nanos (by decide) (by decide))))
   have hM := optCompP_compStr 'M' minute (secStr second nanos) (by decide)
     (compP_none_of_noComp (noComp_secStr second nanos (by decide) (by decide)))
-  rw [dtTimePart_T, hH]
+  have hne : compStr hour 'H' ++ (compStr minute 'M' ++ secStr second nanos) ≠ [] := by
+    intro e
+    rw [List.append_eq_nil_iff, List.append_eq_nil_iff] at e
+    rcases hc with h | h | h
+    · exact compStr_ne_nil 'H' h e.1
+    · exact compStr_ne_nil 'M' h e.2.1
+    · exact secStr_ne_nil h e.2.2
+  rw [dtTimePart_T, if_neg hne, hH]
   simp only []
   rw [hM]
   simp only []
@@ -427,6 +504,15 @@ theorem isSome_sec (second nanos : Nat) :
       decide (nanos > 0 ∨ second > 0) := by
   by_cases h : nanos > 0 ∨ second > 0 <;> simp [h]
 
+theorem compBad_sec {second : Nat} (nanos : Nat) (h : second ≤ u64Max) :
+    compBad (secComp second nanos).1 = false := by
+  unfold secComp
+  by_cases hn : nanos > 0
+  · simp [hn, compBad, parseU64_natToDigits h]
+  · by_cases hs : second > 0
+    · simp [hn, hs, compBad, parseU64_natToDigits h]
+    · simp [hn, hs, compBad]
+
 theorem dtFinish_print (neg : Bool) (day hour minute second nanos : Nat)
     (hd : day ≤ u64Max) (hh : hour ≤ u64Max) (hm : minute ≤ u64Max) (hs : second ≤ u64Max)
     (hn : nanos < 1000000000)
@@ -448,6 +534,8 @@ theorem dtFinish_print (neg : Bool) (day hour minute second nanos : Nat)
       decide (nanos > 0 ∨ second > 0) = true ∨ decide (nanos > 0) = true) := by
     simp only [decide_eq_true_eq]
     omega
+  rw [compBad_comp hd, compBad_comp hh, compBad_comp hm, compBad_sec nanos hs]
+  simp only [Bool.or_self, Bool.false_eq_true, if_false]
   rw [if_pos this]
 
 theorem dt_body (day hour minute second nanos : Nat) :
@@ -466,7 +554,7 @@ theorem dt_body (day hour minute second nanos : Nat) :
   · rw [if_pos hc]
     rw [optCompP_compStr 'D' day _ (by decide)
       (compP_none_of_noComp (noComp_cons _ (by decide) (by decide)))]
-    exact ⟨rfl, dtTimePart_print hour minute second nanos⟩
+    exact ⟨rfl, dtTimePart_print hour minute second nanos hc⟩
   · rw [if_neg hc]
     rw [optCompP_compStr 'D' day _ (by decide) (compP_nil _)]
     have h1 : hour = 0 := by omega
